@@ -121,6 +121,9 @@ func filterBatch(ctx stick.Context, val stick.Value, args ...stick.Value) stick.
 // character capitalized.
 func filterCapitalize(ctx stick.Context, val stick.Value, args ...stick.Value) stick.Value {
 	s := stick.CoerceString(val)
+	if s == "" {
+		return s
+	}
 	return strings.ToUpper(s[:1]) + s[1:]
 }
 
